@@ -143,6 +143,7 @@ class NumberedObjectCollection(ABC):
         """
         if not isinstance(other_list, (list, type(self))):
             raise TypeError("The extending list must be a list")
+        new_nums = set()
         for obj in other_list:
             if not isinstance(obj, self._obj_class):
                 raise TypeError(
@@ -155,9 +156,16 @@ class NumberedObjectCollection(ABC):
                         f"adding {obj} which conflicts with {self[obj.number]}"
                     )
                 )
+            if obj.number in new_nums:
+                raise NumberConflictError(
+                    (
+                        f"When adding to {type(self)} there was a number collision: "
+                        f"the number {obj.number} is used more than once in the added list."
+                    )
+                )
+            new_nums.add(obj.number)
             # if this number is a ghost; remove it.
-            else:
-                self.__num_cache.pop(obj.number, None)
+            self.__num_cache.pop(obj.number, None)
         self._objects.extend(other_list)
         if self._problem:
             for obj in other_list:
@@ -354,6 +362,7 @@ class NumberedObjectCollection(ABC):
             other_list = other.objects
         else:
             other_list = other
+        new_nums = set()
         for obj in other_list:
             if obj.number in self.numbers:
                 raise NumberConflictError(
@@ -362,8 +371,17 @@ class NumberedObjectCollection(ABC):
                         f"{obj} to {type(self)}. Conflict was with {self[obj.number]}"
                     )
                 )
-            else:
-                self.__num_cache[obj.number] = obj
+            if obj.number in new_nums:
+                raise NumberConflictError(
+                    (
+                        "There was a numbering conflict when attempting to add "
+                        f"{obj} to {type(self)}. The number {obj.number} is used more than once in the added list."
+                    )
+                )
+            new_nums.add(obj.number)
+        # only cache the new objects once all of them are known to be accepted
+        for obj in other_list:
+            self.__num_cache[obj.number] = obj
         self._objects += other_list
         if self._problem:
             for obj in other_list:
